@@ -15,7 +15,10 @@ def perform(proj, op):
     if api == "inline":
         from rope.refactor import inline
 
-        return inline.create_inline(proj, res, op["offset"]).get_changes(**{k: op[k] for k in ("remove", "only_current") if k in op})
+        inl = inline.create_inline(proj, res, op["offset"])
+        if inl.get_kind() == "parameter":
+            return inl.get_changes()  # InlineParameter takes no remove / only_current
+        return inl.get_changes(**{k: op[k] for k in ("remove", "only_current") if k in op})
     if api == "rename":
         from rope.refactor import rename
 
